@@ -898,16 +898,8 @@ theorem wf_slot_step (W : World) (f : Nat) (ih : WfAt W f) :
     ∀ ctx st attrs kids, CtxOK ctx → TplList kids → OutOK (evalSlot W (f + 1) ctx st attrs kids) := by
   intro ctx st attrs kids hctx hk
   simp only [evalSlot]
-  have hun : ∀ (name : Str), OutOK (match ctx.inherited.lookup name with
-      | some content => Res.ok (content.nodes, st)
-      | none => if (!kids.isEmpty) = true then evalList W f ctx st kids else Res.ok ([], st)) := by
-    intro name
-    split
-    · rename_i content hl
-      exact outOK_ok (wfe_of_tplList _ (scopeOK_lookup hctx.inherited hl).1)
-    · split
-      · exact ih.list _ _ _ hctx hk
-      · exact outOK_ok wfeList_nil
+  have hctx0 : CtxOK { ctx with slots := [], inherited := [] } :=
+    { slots := fun s hs => absurd hs (List.not_mem_nil), inherited := fun e he => absurd he (List.not_mem_nil) }
   split
   · rename_i sc outer hsl
     have hsc : ScopeOK sc := hctx.slots sc (by rw [hsl]; exact List.mem_cons_self ..)
@@ -921,8 +913,30 @@ theorem wf_slot_step (W : World) (f : Nat) (ih : WfAt W f) :
         intro res st1 hres
         exact outOK_ok (ih.list _ _ _ hctx' (hc.2 tk htk) res st1 hres)
       · exact ih.list _ _ _ hctx' hc.1
-    · exact hun _
-  · exact hun _
+    · split
+      · rename_i content hl
+        have hc := scopeOK_lookup hctx.inherited hl
+        split
+        · rename_i tk htk
+          apply outOK_bindR
+          intro res st1 hres
+          exact outOK_ok (ih.list _ _ _ hctx0 (hc.2 tk htk) res st1 hres)
+        · exact ih.list _ _ _ hctx0 hc.1
+      · split
+        · exact ih.list _ _ _ hctx hk
+        · exact outOK_ok wfeList_nil
+  · split
+    · rename_i content hl
+      have hc := scopeOK_lookup hctx.inherited hl
+      split
+      · rename_i tk htk
+        apply outOK_bindR
+        intro res st1 hres
+        exact outOK_ok (ih.list _ _ _ hctx0 (hc.2 tk htk) res st1 hres)
+      · exact ih.list _ _ _ hctx0 hc.1
+    · split
+      · exact ih.list _ _ _ hctx hk
+      · exact outOK_ok wfeList_nil
 
 
 theorem S_template : S "template" = sTemplate := rfl
